@@ -1078,3 +1078,91 @@ def must_held_at(fn, g, target, pruned=()):
         if target in via_kill:
             return False, "a release may precede it"
         return True, ""
+
+
+# ------------------------------------------------------------------ field writes (A8)
+def field_assigns(fn, field, owner_suffix=None):
+    """assignments whose destination place ends in `.field` (optionally of an ADT whose path ends with owner_suffix):
+    list of (block, stmt index, stmt)"""
+    out = []
+    for b, blk in enumerate(fn.blocks):
+        if blk["cleanup"]:
+            continue
+        for i, st in enumerate(blk["s"]):
+            pr = st["p"]["p"]
+            if pr and isinstance(pr[-1], dict) and pr[-1].get("n") == field and "f" in pr[-1]:
+                if owner_suffix and not pr[-1].get("o", "").endswith(owner_suffix):
+                    continue
+                out.append((b, i, st))
+    return out
+
+
+def stmt_const(st):
+    """const value assigned by a statement, if it is `place = const`"""
+    rv = st["rv"]
+    if rv["k"] == "use" and "const" in rv["a"]:
+        return const_value(rv["a"]["const"])
+    return None
+
+
+def err_region(fn, blocks_with_results):
+    """blocks reachable only via the Err edge of the Result-returning calls in `blocks_with_results`"""
+    starts = []
+    for b in blocks_with_results:
+        rf = result_flow(fn, b)
+        starts.extend(rf.err_blocks)
+    return starts
+
+
+def switch_after_call(fn, b):
+    """the switch block that branches on the bool/enum result of the call in block b (directly), or None"""
+    t = fn.blocks[b]["t"]
+    if t["k"] != "call" or t["t"] is None:
+        return None
+    dl = t["dest"]["l"]
+    seen = set()
+    cur = t["t"]
+    # follow straight-line blocks
+    while cur is not None and cur not in seen:
+        seen.add(cur)
+        tt = fn.blocks[cur]["t"]
+        if tt["k"] == "switch":
+            p = op_place(tt["d"])
+            if p is not None:
+                # discriminant of / direct use of dest
+                if p["l"] == dl:
+                    return cur
+                for d in defs_of(fn, p["l"]):
+                    if d[0] == "stmt":
+                        rv = d[3]
+                        if rv["k"] == "discr" and rv["pl"]["l"] == dl:
+                            return cur
+                        if rv["k"] in ("use", "un") and op_place(rv["a"]) and op_place(rv["a"])["l"] == dl:
+                            return cur
+            return None
+        if tt["k"] == "goto":
+            cur = tt["t"]
+        else:
+            return None
+    return None
+
+
+def bool_edges(fn, sw):
+    """(false targets, true targets) of a bool switch block"""
+    t = fn.blocks[sw]["t"]
+    zero = [tg for v, tg in t["vs"] if v == 0]
+    other = [x for x in fn.succs(sw) if x not in zero]
+    return zero, other
+
+
+def variants_in(t, enum_suffix):
+    """names of variants of the enum (path ending in enum_suffix) that occur in term t, as consts or aggregates"""
+    out = set()
+    for x in walk(t):
+        if x.k == "const" and x.a[0] == "variant" and x.a[1].endswith(enum_suffix):
+            out.add(x.a[2])
+        elif x.k == "agg" and "::" in x.a[0]:
+            enum, var = x.a[0].rsplit("::", 1)
+            if enum.endswith(enum_suffix):
+                out.add(var)
+    return out
